@@ -93,6 +93,7 @@ type Engine struct {
 	OpenSat                                                    int
 	CrossChecks                                                int
 	CrossDisagree                                              int
+	CrossUnknown                                               int
 	SyntacticValid                                             int
 	RawChecks, RawConfirmed, RawUnknown, RawDisagree, RawNodes int
 
@@ -157,7 +158,9 @@ func NewEngine(opt Options) (*Engine, error) {
 		}
 		e.solver = s
 		if opt.CrossSolver != "" {
-			c, err := NewSolver(opt.CrossSolver, opt.TimeoutMs)
+			// the cross solver only has to confirm verdicts the primary solver reached; a short
+			// timeout keeps the thorough tier bounded (an unknown is counted, not a disagreement)
+			c, err := NewSolver(opt.CrossSolver, min(opt.TimeoutMs, 5000))
 			if err != nil {
 				return nil, err
 			}
@@ -256,6 +259,7 @@ func (e *Engine) SolverStats() map[string]any {
 		m["cross_solver"] = e.cross.Name
 		m["cross_checks"] = e.CrossChecks
 		m["cross_disagree"] = e.CrossDisagree
+		m["cross_unknown"] = e.CrossUnknown
 		m["cross_solver_s"] = e.cross.Time.Seconds()
 	}
 	return m
@@ -1271,6 +1275,9 @@ func (r *Run) Valid(id string, p Pred) bool {
 			r.eng.CrossChecks++
 			script, _ := r.scriptFor([]Pred{Not(p)}, r.generic)
 			cv, _ := r.eng.cross.Check(script, nil)
+			if cv == Unknown {
+				r.eng.CrossUnknown++
+			}
 			if cv == Sat {
 				r.eng.CrossDisagree++
 				worse(o, StInconclusive, "solvers disagree", nil)
